@@ -140,6 +140,27 @@ def _case(args):
         else:
             e.update(cov_rep_lg=0, cov_true_lg=-100000, len_cov=0, want_cov=0)
         ev.append(e)
+    # a REUSED solver object: the histories returned by a later call belong to that call only
+    obj = solver_obj(solver, gamma, K, 0.0)
+    obj.compute(Aq.copy())
+    obj.compute(q_from_float(A[: max(1, m - 1), :].copy() if m > 1 else A.copy()))
+    out2 = obj.compute(Aq.copy())
+    rh2 = out2[1]["AXA-A"]
+    ch2 = out2[2] if solver == "damped" else None
+    j = K - 1
+    if K >= 1:
+        Xa = Xs[K]
+        true_res = ofro(omul(omul(A, Xa), A) - A)
+        e = {"tid": tid, "ev": "Hist", "k": j, "has_res": True, "reused_object": True,
+             "res_rep_lg": lg(float(rh2[-1]) / nrmA) if len(rh2) else 100000, "res_true_lg": lg(true_res / nrmA),
+             "len_res": len(rh2), "want_res": K}
+        if ch2 is not None:
+            Xb = Xs[K - 1]
+            dev = (omul(Xb, A) - oeye(n)) if m >= n else (omul(A, Xb) - oeye(m))
+            e.update(cov_rep_lg=lg(float(ch2[-1])) if len(ch2) else 100000, cov_true_lg=lg(ofro(dev)), len_cov=len(ch2), want_cov=K)
+        else:
+            e.update(cov_rep_lg=0, cov_true_lg=-100000, len_cov=0, want_cov=0)
+        ev.append(e)
     # stop-rule runs
     smin = min([abs(v) for v in ss if v != 0], default=1.0)
     for tol in (1e-3, 1e-7):
